@@ -1,8 +1,16 @@
 """C34 Timestamps are unique and increasing (db19/timestamp.go, core/thread.go Thread.Timestamp)
 
-Mutation testing of this check (scratch worktree, VERIF_REPO=<dir>, quick tier; each mutant
-compiles and passes `go test -short ./core/ ./db19/` of the touched package): see the list at
-the end of this comment block, filled in from the measured runs.
+Mutation testing of this check (scratch worktree on top of the hook commits, VERIF_REPO=<dir>,
+quick tier, VERIF_SEED=1,2(,3); every mutant compiles and passes `go test -short ./core/ ./db19/`):
+  T1 server: timestamp.AddMs(TsInitialBatch - 1) (batch size mismatch)    VIOLATION 2/2 (duplicate ms)
+  T2 client: tsLimit = 300 in the extra half (uint8 wraps to 0)           VIOLATION 2/2 (caller's 257th value = its 1st)
+  T3 ticker: `t.Compare(timestamp) != 0` (moves the timestamp backwards)  VIOLATION 2/2 (duplicates after the tick)
+  T4 tsExpire: tsCount = 0 (expired batch used again)                     VIOLATION 2/2
+  T5 client: `tsLast.Millisecond() <= TsThreshold` (threshold mismatch)   VIOLATION 3/3 (needs the boundary probes:
+                                                                          1/2 without them)
+  T6 client: `tsCount <= tsLimit` (one value too many per batch)          VIOLATION 2/2
+Deviations of the model (Dev = srvbatch / wrap / tickback / reuse) are shown to violate Distinct by TLC.
+VERIF_SKIP_MC=1 skips the spec-only TLC runs (developer shortcut for mutation loops only).
 """
 import json, os
 
@@ -17,8 +25,40 @@ DEVS = ["Timestamp_dev_srvbatch.cfg", "Timestamp_dev_wrap.cfg", "Timestamp_dev_t
         "Timestamp_dev_reuse.cfg"]
 
 
+def apalache_extra(ctx):
+    """OPTIONAL: inductive invariant of the protocol for unbounded time / operations with Apalache
+    (spec/apalache/TimestampInd.tla). Nothing depends on it: any problem is only recorded."""
+    import shutil, subprocess, time
+    src = os.path.join(os.path.dirname(os.path.dirname(os.path.abspath(__file__))), "spec", "apalache", "TimestampInd.tla")
+    if not shutil.which("apalache-mc") or not os.path.exists(src):
+        ctx.cov["apalache"] = "not available"
+        return
+    d = os.path.join(ctx.work, "apalache")
+    os.makedirs(d, exist_ok=True)
+    shutil.copy(src, d)
+    out = []
+    for name, args in (("initiation Init => IndInv", ["--init=Init", "--inv=IndInv", "--length=0"]),
+                       ("consecution IndInv /\\ Next => IndInv'", ["--init=IndInit", "--inv=IndInv", "--length=1"]),
+                       ("IndInv => Distinct /\\ Increasing", ["--init=IndInit", "--inv=Safe", "--length=0"])):
+        t = time.time()
+        try:
+            r = subprocess.run(["apalache-mc", "check"] + args + ["--out-dir=" + os.path.join(d, "out"), "TimestampInd.tla"],
+                               cwd=d, capture_output=True, text=True, timeout=900)
+            ok = "The outcome is: NoError" in r.stdout
+            out.append({"step": name, "ok": ok, "wall_s": round(time.time() - t, 1)})
+            ctx.log("apalache %s: %s" % (name, "NoError" if ok else "NOT PROVED (ignored)"))
+        except Exception as ex:
+            out.append({"step": name, "ok": False, "error": repr(ex)[:200]})
+    ctx.cov["apalache_inductive_invariant_optional"] = out
+
+
 def run(ctx):
     from vlib import Infra
+    if ctx.replay:      # a recorded server lifetime can only be re-validated, not re-executed
+        res = ctx.tlc_trace("TraceTimestamp.tla", "TraceTimestamp.cfg", ctx.replay, timeout=1800)
+        if not res["accepted"]:
+            ctx.report_rejection(ctx.replay, res)
+        return
     th = ctx.thorough()
     skip_mc = os.environ.get("VERIF_SKIP_MC") == "1"   # developer shortcut for mutation loops
     # 1. design level: exhaustive TLC
@@ -91,6 +131,8 @@ def run(ctx):
         if res["accepted"] or res.get("line") != base + 6:
             raise Infra("self-test: corrupted trace (duplicate value at line %d) not rejected there: %s" % (base + 6, res))
         ctx.cov["corrupted_trace_rejected_at_line"] = base + 6
+    if th and not skip_mc:
+        apalache_extra(ctx)
     for k in ("values", "callers", "with_extra", "server_calls", "client_calls", "ticks", "effective_ticks"):
         ctx.cov["ts_" + k] = sum(s.get(k, 0) for s in summs)
     ctx.assumptions += [
